@@ -22,3 +22,4 @@ _reg("C38")
 _reg("C14")
 _reg("C15")
 _reg("C16")
+_reg("C17", "interp")
